@@ -154,7 +154,18 @@ impl Plan {
 pub enum Op {
     /// `must_succeed`: the fault-free load at the end of every run (the executor lifts any
     /// denial first and ignores error events of the plan): liveness once faults stop.
-    Load { client: usize, plan: Plan, #[serde(default)] must_succeed: bool },
+    /// `spelling` (relative runs only): how the client spells the path — 0 the bare file name,
+    /// 1 `./name`, 2 `sub/../name` (a real directory: same file), 3 `link/../name` where `link` is
+    /// a symbolic link to a directory elsewhere (the kernel resolves `..` from the link's target:
+    /// ANOTHER file of that name), 4 the absolute path, 5 the absolute path through `link/..`.
+    Load {
+        client: usize,
+        plan: Plan,
+        #[serde(default)]
+        must_succeed: bool,
+        #[serde(default)]
+        spelling: u8,
+    },
     /// `full`: every whole second within +-40 s of every entry (the once-per-table sweep).
     Query { client: usize, probe_seed: u64, #[serde(default)] full: bool },
     Replace { image: usize },
@@ -596,7 +607,7 @@ pub fn generate(seed: u64, run_index: u64, infos: &[PoolInfo]) -> Scenario {
             kind: *rng.pick(&ErrKind::READ_KINDS),
             persistent: kinds & K_PERSIST != 0 && rng.chance(1, 3),
         });
-        ops.push(Op::Load { client: 0, plan, must_succeed: false });
+        ops.push(Op::Load { client: 0, plan, must_succeed: false, spelling: 0 });
         ops.push(Op::Query {
             client: 0,
             probe_seed: rng.next_u64(),
@@ -673,7 +684,14 @@ pub fn generate(seed: u64, run_index: u64, infos: &[PoolInfo]) -> Scenario {
             if let Some((_, img)) = plan.replace_at {
                 current = img;
             }
-            ops.push(Op::Load { client, plan, must_succeed: false });
+            let spelling = if !relative {
+                0
+            } else if away {
+                *rng.pick(&[0u8, 0, 1, 4, 5])
+            } else {
+                *rng.pick(&[0u8, 0, 1, 2, 3, 3, 4, 5])
+            };
+            ops.push(Op::Load { client, plan, must_succeed: false, spelling });
             loads += 1;
             // a query right after a load is the common pattern
             if rng.chance(2, 3) {
@@ -730,6 +748,7 @@ pub fn generate(seed: u64, run_index: u64, infos: &[PoolInfo]) -> Scenario {
             ..Plan::default()
         },
         must_succeed: true,
+        spelling: 0,
     });
     ops.push(Op::Query {
         client: 0,
